@@ -268,8 +268,11 @@ func FuzzCreate(f *testing.F) {
 			// the replay unit of a native fuzz failure is the saved input
 			os.Setenv("VERIF_REPLAY_DIR", out)
 		}
-		c10Check(t, "FuzzCreate", in)
-		c15Check(t, "FuzzCreate", in)
+		_, hit, _ := c10Check(t, "FuzzCreate", in)
+		if !hit && strings.Count(string(in), "(") <= 5 {
+			// the differential against the reference parser runs the unbudgeted parser
+			c15Check(t, "FuzzCreate", in)
+		}
 	})
 }
 
